@@ -3,6 +3,7 @@ import NrDaemon.Lemmas.Reservoir
 import NrDaemon.Lemmas.Metrics
 import NrDaemon.Props.C06
 import NrDaemon.Lemmas.AppLimit
+import NrDaemon.Props.Tied
 /-!
   C05 — buffers are bounded by the negotiated capacities and counted exactly.
 -/
@@ -157,3 +158,7 @@ theorem C05_app_limit_all_histories (s : PState) (es : List PEvent) (h0 : s.apps
 theorem C05_app_limit_gate (s : PState) (rid : Option String) (cfg : AppCfg)
     (hn : getApp s cfg.handle = none) (hl : s.apps.length ≥ 250) : (processAppInfo s rid cfg).1 = s :=
   processAppInfo_full s rid cfg hn (by simpa [Gen.Limits.AppLimit] using hl)
+
+/-- **C05 (tie: the table-full test is the code's).** -/
+theorem C05_table_full_tied (t : MTable) :
+    decide (t.count ≥ t.max) = Gen.Decisions.tableFull (t.count : Int) (t.max : Int) := tied_tableFull t
